@@ -38,6 +38,15 @@ func reportStrategy(name string, n []int, f []float64) (strategy.Strategy, strin
 		parts := strings.Split(inner, "+")
 		subs := make([]strategy.Strategy, 0, len(parts))
 		for _, p := range parts {
+			if strings.HasPrefix(p, "@") {
+				// "@k": the very same instance as the k-th wrapped strategy (one object on two sides of a compound)
+				k, err := strconv.Atoi(p[1:])
+				if err != nil || k < 0 || k >= len(subs) {
+					return nil, "ERR bad-shared-reference"
+				}
+				subs = append(subs, subs[k])
+				continue
+			}
 			ctor, ok := strategies[p]
 			if !ok {
 				return nil, "ERR unknown-strategy"
